@@ -346,45 +346,65 @@ func runC04(c *Ctx) {
 	// ---- R2 ----
 	if f := c.fn("netutil", "ipv6FromReversed"); f != nil {
 		arpa := f.Params[0]
-		heads := core.LoopHeads(f)
-		var head *ssa.BasicBlock
-		for h := range heads {
-			head = h
-		}
-		iv, _, n, ok := ssa.Value(nil), (*ssa.Phi)(nil), int64(0), false
-		if head != nil && len(heads) == 1 {
-			iv, _, n, ok = ivOf(head)
-		}
-		if !ok {
-			c.undecided("C04.v6.every-byte-checked", f, "the 16-group scan", nil, "the fixed-length walk over the name is not a single counted loop: positions cannot be enumerated")
-		} else {
+		n := int64(16)
+		// enumerate, for every counted loop, the positions of the name that
+		// are read and can lead to a rejection
+		covered := map[int64]string{}
+		var mainIV ssa.Value
+		undec := ""
+		for head := range core.LoopHeads(f) {
+			phi, vals, ok := countedLoop(head)
+			if !ok {
+				undec = "a loop of the scan is not a counted loop with constant bounds"
+				continue
+			}
 			body := core.LoopBody(head)
-			offs := map[int64]bool{}
-			stride := int64(-1)
 			core.EachInstr(f, func(in ssa.Instruction) {
 				lk, lx, li, ok := strIndex(in)
 				if !ok || lx != ssa.Value(arpa) || !body[in.Block()] {
 					return
 				}
-				a, k, ok := affine(li, iv, 0)
+				a, k, ok := affine(li, phi, 0)
 				if !ok {
+					undec = "a read of the name is not at an affine position of the loop counter"
 					return
 				}
-				if leadsToReject(lk) {
-					if stride < 0 {
-						stride = a
-					}
-					if a == stride {
-						offs[k] = true
-					}
+				kind := rejectKind(lk)
+				if kind == "" {
+					return
+				}
+				for _, v := range vals {
+					covered[a*v+k] = kind
 				}
 			})
-			okSet := stride == 4
-			for k := int64(0); k < 4; k++ {
-				okSet = okSet && offs[k]
+			if iv, _, cnt, ok := ivOf(head); ok && cnt == 16 {
+				mainIV = iv
 			}
-			c.check(okSet && n == 16, "C04.v6.every-byte-checked", f, "positions 4i+0..3, i < 16, are each read and can reject", nil,
-				sprintf("stride %d, trip count %d, checked offsets %v: every byte of the 63-byte address part must be a hex digit (even positions) or a dot (odd positions), otherwise a non-canonical name is decoded", stride, n, keysInt(offs)))
+		}
+		iv := mainIV
+		ok := undec == "" && iv != nil
+		if !ok {
+			if undec == "" {
+				undec = "no 16-iteration loop over the address bytes"
+			}
+			c.undecided("C04.v6.every-byte-checked", f, "the 16-group scan", nil, undec+": positions cannot be enumerated")
+		} else {
+			var missing []int64
+			for p := int64(0); p < 4*n-1; p++ {
+				want := "hex"
+				if p%2 == 1 {
+					want = "dot"
+				}
+				if covered[p] != want {
+					missing = append(missing, p)
+				}
+			}
+			show := missing
+			if len(show) > 16 {
+				show = show[:16]
+			}
+			c.check(len(missing) == 0, "C04.v6.every-byte-checked", f, "every position 0..62 of the address part is read and can reject (even: hex digit, odd: '.')", nil,
+				sprintf("%d of 63 positions covered; unchecked positions: %v — a name with any other byte there is decoded as if it were canonical", 63-len(missing), show))
 			// any check hoisted out of the loop must still cover the positions: covered by the set above
 			maxLen, okL := intConst(c, "netutil", "arpaV6MaxLen")
 			c.check(okL && maxLen == 4*n-1+int64(len(".ip6.arpa")), "C04.v6.every-byte-checked", f, "arpaV6MaxLen == 4*16-1+len(\".ip6.arpa\")", nil, sprintf("constant is %d", maxLen))
@@ -1001,4 +1021,98 @@ func strIndex(in ssa.Instruction) (ssa.Value, ssa.Value, ssa.Value, bool) {
 		}
 	}
 	return nil, nil, nil, false
+}
+
+// countedLoop: the loop head has an integer phi with constant start and
+// constant positive step whose test `affine(phi) < N` (or <=) bounds it;
+// returns the phi and the values it takes while the body executes.
+func countedLoop(head *ssa.BasicBlock) (*ssa.Phi, []int64, bool) {
+	iff, ok := head.Instrs[len(head.Instrs)-1].(*ssa.If)
+	if !ok {
+		return nil, nil, false
+	}
+	b, ok := iff.Cond.(*ssa.BinOp)
+	if !ok || (b.Op != token.LSS && b.Op != token.LEQ) {
+		return nil, nil, false
+	}
+	n, isK := core.ConstInt(b.Y)
+	if !isK {
+		return nil, nil, false
+	}
+	body := core.LoopBody(head)
+	if !body[head.Succs[0]] {
+		return nil, nil, false
+	}
+	for _, in := range head.Instrs {
+		phi, ok := in.(*ssa.Phi)
+		if !ok {
+			break
+		}
+		step, ok := phiStep(phi, head, body)
+		if !ok || step <= 0 {
+			continue
+		}
+		start, okS := int64(0), false
+		for i, e := range phi.Edges {
+			if !body[head.Preds[i]] {
+				start, okS = core.ConstInt(e)
+			}
+		}
+		a, k, okA := affine(b.X, phi, 0)
+		if !okS || !okA || a <= 0 {
+			continue
+		}
+		var vals []int64
+		for v := start; len(vals) < 4096; v += step {
+			t := a*v + k
+			if (b.Op == token.LSS && t < n) || (b.Op == token.LEQ && t <= n) {
+				vals = append(vals, v)
+			} else {
+				break
+			}
+		}
+		return phi, vals, true
+	}
+	return nil, nil, false
+}
+
+// rejectKind: how the byte read is validated: "hex" (through fromHexByte
+// compared with 0xff), "dot" (compared with '.'), "" (not validated).
+func rejectKind(v ssa.Value) string {
+	for _, r := range core.Refs(v) {
+		switch x := r.(type) {
+		case *ssa.BinOp:
+			k, isK := core.ConstInt(x.Y)
+			if !isK {
+				continue
+			}
+			rej := false
+			for _, rr := range core.Refs(x) {
+				if iff, ok := rr.(*ssa.If); ok {
+					for _, s := range iff.Block().Succs {
+						if blockRejects(s) {
+							rej = true
+						}
+					}
+				}
+			}
+			if rej && k == '.' {
+				return "dot"
+			}
+			if rej && k == 0xff {
+				return "hexcmp"
+			}
+		case *ssa.Call:
+			if cal := x.Call.StaticCallee(); cal != nil && cal.Name() == "fromHexByte" {
+				if rejectKind(x) == "hexcmp" {
+					return "hex"
+				}
+			}
+		case *ssa.Convert:
+			if k := rejectKind(x); k != "" {
+				return k
+			}
+		}
+	}
+	return ""
 }
